@@ -1,6 +1,7 @@
 package main
 
 import (
+	"sort"
 	"fmt"
 
 	btpb "cloud.google.com/go/bigtable/apiv2/bigtablepb"
@@ -259,6 +260,17 @@ func runC05(r *Run) {
 			default:
 				f = &btpb.RowFilter{Filter: &btpb.RowFilter_Condition_{Condition: &btpb.RowFilter_Condition{PredicateFilter: la, TrueFilter: lb, FalseFilter: g.leaf(d, d.n(leafKinds), true)}}}
 			}
+		case 2:
+			// interleave of branches that select DISJOINT columns, listed out of qualifier order,
+			// followed by a count-sensitive filter: the pooled result is sorted before the next
+			// filter sees it (no duplicates here, so the order is fully determined)
+			f = c05DisjointInterleave(d, base, fams)
+			if f == nil {
+				g.nSamples = 0
+				f = g.tree(d, 0, true)
+			} else {
+				r.Probe("c05.count_after_disjoint_interleave")
+			}
 		default:
 			g.nSamples = 0
 			f = g.tree(d, 0, true)
@@ -280,4 +292,59 @@ func runC05(r *Run) {
 		r.Mix(s)
 	}
 	r.Sample = map[string]interface{}{"engine": engine, "rows": base, "filters": firstN(shapes, 8)}
+}
+
+// c05DisjointInterleave: chain[family f, interleave[qualifier = b, qualifier = a] (b > a), X] with
+// X in {cells_per_row_limit 1, cells_per_row_offset 1, cells_per_column_limit 1}; nil if no row
+// has two distinct plain qualifiers in one family.
+func c05DisjointInterleave(d *draws, base []ORow, fams []string) *btpb.RowFilter {
+	fam := fams[d.n(len(fams))]
+	seen := map[string]bool{}
+	var quals []string
+	for _, row := range base {
+		for _, c := range row.Cells {
+			if c.Fam == fam && !seen[c.Qual] {
+				seen[c.Qual] = true
+				quals = append(quals, c.Qual)
+			}
+		}
+	}
+	if len(quals) < 2 {
+		d.n(1)
+		d.n(1)
+		d.n(1)
+		return nil
+	}
+	sort.Strings(quals)
+	i := d.n(len(quals) - 1)
+	j := i + 1 + d.n(len(quals)-i-1)
+	lit := func(q string) *btpb.RowFilter {
+		c := &rx{kind: rxCat}
+		for k := 0; k < len(q); k++ {
+			c.subs = append(c.subs, &rx{kind: rxLit, b: q[k]})
+		}
+		var node *rx = c
+		if len(c.subs) == 0 {
+			node = &rx{kind: rxEmpty}
+		}
+		return &btpb.RowFilter{Filter: &btpb.RowFilter_ColumnQualifierRegexFilter{ColumnQualifierRegexFilter: registerRx(node)}}
+	}
+	famF := &btpb.RowFilter{Filter: &btpb.RowFilter_FamilyNameRegexFilter{FamilyNameRegexFilter: string(registerRx(&rx{kind: rxCat, subs: func() []*rx {
+		var l []*rx
+		for k := 0; k < len(fam); k++ {
+			l = append(l, &rx{kind: rxLit, b: fam[k]})
+		}
+		return l
+	}()}))}}
+	inter := &btpb.RowFilter{Filter: &btpb.RowFilter_Interleave_{Interleave: &btpb.RowFilter_Interleave{Filters: []*btpb.RowFilter{lit(quals[j]), lit(quals[i])}}}}
+	var x *btpb.RowFilter
+	switch d.n(3) {
+	case 0:
+		x = &btpb.RowFilter{Filter: &btpb.RowFilter_CellsPerRowLimitFilter{CellsPerRowLimitFilter: 1}}
+	case 1:
+		x = &btpb.RowFilter{Filter: &btpb.RowFilter_CellsPerRowOffsetFilter{CellsPerRowOffsetFilter: 1}}
+	default:
+		x = &btpb.RowFilter{Filter: &btpb.RowFilter_CellsPerColumnLimitFilter{CellsPerColumnLimitFilter: 1}}
+	}
+	return &btpb.RowFilter{Filter: &btpb.RowFilter_Chain_{Chain: &btpb.RowFilter_Chain{Filters: []*btpb.RowFilter{famF, inter, x}}}}
 }
